@@ -115,6 +115,30 @@ func runC31(c *Ctx) {
 		}
 		w := f.ExitReachable(nil, clr, nil, nil)
 		c.Check(w == nil, "clears-active-on-every-exit", "deactivate clears the activated flag on every exit (a second deactivation request finds the grain inactive)", c.P.Pos(deactivate.Decl.Pos()), f.describe(w))
+		// the flags that fence a second deactivation off (activated, onPoisonPill) are lowered only after OnDeactivate
+		// returned: cleared earlier, a passivation firing already in flight passes its guard and runs OnDeactivate again
+		onDeactCall := f.CallTo(onDeact)
+		for _, fld := range []string{"activated", "onPoisonPill"} {
+			fv := c.Field("actor", "grainPID", fld)
+			lower := func(n ast.Node) bool {
+				call, ok := n.(*ast.CallExpr)
+				if !ok || !f.CallOnField(fv, "Store")(call) || len(call.Args) != 1 {
+					return false
+				}
+				id, ok := call.Args[0].(*ast.Ident)
+				return ok && id.Name == "false"
+			}
+			early := ""
+			for _, a := range f.Find(lower) {
+				if a.Deferred {
+					continue
+				}
+				if w := f.search(searchSpec{avoid: onDeactCall, target: func(n ast.Node) bool { return n == a.N }}); w != nil {
+					early = c.P.Pos(a.N.Pos())
+				}
+			}
+			c.Check(early == "" && len(f.Find(lower)) > 0, "fence-lowered-after-hook/"+fld, "the "+fld+" flag is lowered only after OnDeactivate returned (deferred cleanup), so a deactivation request arriving meanwhile is refused", c.P.Pos(deactivate.Decl.Pos()), fld+" is cleared at "+early+" before OnDeactivate runs")
+		}
 		for _, name := range []string{"grainPID.handlePoisonPill", "grainPID.handlePassivationPill", "grainPID.passivationTry"} {
 			fn := c.Func("actor", name)
 			ff := c.NewFlow(fn)
